@@ -150,6 +150,19 @@ pub fn run(o: &Opts) {
           report(&mut out, &front, &got, &want);
         }
       }
+      // ---- the same rules handed over on the command line (--inline-rules) instead of a rule file
+      {
+        let text = std::fs::read_to_string(&rabs).unwrap_or_default();
+        let r = sg(&dir, &["scan", "--inline-rules", &text, "--json=stream", &file], None, 30);
+        let mut got: Vec<Finding> = json_lines(&r.stdout).unwrap_or_default().iter().map(from_json).collect();
+        got.sort();
+        if r.timed_out || !matches!(r.code, Some(0) | Some(1)) {
+          out.checked();
+          out.oracle_fail("", &format!("sg scan --inline-rules: exit {:?} timed_out={} stderr={}; {what}", r.code, r.timed_out, r.stderr.chars().take(200).collect::<String>()), json!({"stream": "c09", "front": "inline-rules", "rules": yamls, "source": src}));
+        } else {
+          report(&mut out, "sg scan --inline-rules --json=stream", &got, &want);
+        }
+      }
       // ---- GitHub format: error / warning / notice lines; hint-level findings are not printed by design
       {
         let r = sg(&dir, &["scan", "-r", rarg, "--format", "github", &file], None, 30);
